@@ -35,7 +35,7 @@ CLAIMED = {
         technique="Lean 4 proof (invariant by induction over buffer operations) + model/code correspondence + sanitizer oracle"),
     "C02": dict(
         engine="conn",
-        text="Lean 4 theorems (28) over byte-accurate models of get_request_line_inner / get_req_header / get_req_headers (incl. the "
+        text="Lean 4 theorems (30) over byte-accurate models of get_request_line_inner / get_req_header / get_req_headers (incl. the "
              "repaired shift-back), process_request_target, MHD_parse_arguments_, the strict and lenient in-place percent decoders, "
              "MHD_unescape_plus, parse_cookie_header and MHD_lookup_connection_value_n, for every level (every flag combination), "
              "every buffer content and every segmentation: fault-freedom of the incremental scanners AND of the one-shot parsers "
@@ -54,7 +54,7 @@ CLAIMED = {
         design="DESIGN.md §3 C02/C03", technique="Lean 4 proof (scanner split-independence lemma, invariants, round-trip lemmas) + model/code correspondence + semantic oracle"),
     "C03": dict(
         engine="frame",
-        text="Lean 4 proof (24 theorems): decideBody (Transfer-Encoding/Content-Length decision of parse_connection_headers) equals "
+        text="Lean 4 proof (30 theorems): decideBody (Transfer-Encoding/Content-Length decision of parse_connection_headers) equals "
              "the RFC 9112 s6.3 reference decision for EVERY field list, level and version (decideBody_agrees_reference, total; "
              "mixed case, OWS, duplicates, list values), every defect class refused with close (framing_defect_no_resync); chunk "
              "decoder decode(encode) = id with exact consumption for every admissible chunking (extensions, BWS, bare LF, leading "
@@ -71,7 +71,7 @@ CLAIMED = {
         design="DESIGN.md §3 C02/C03", technique="Lean 4 proof + regenerated thresholds + model/code correspondence + reference framer oracle"),
     "C09": dict(
         engine="daemon",
-        text="Lean 4 proof (16 theorems): accounting invariant (connections = |active|+|suspended|+|cleanup| <= limit; per-address "
+        text="Lean 4 proof (17 theorems): accounting invariant (connections = |active|+|suspended|+|cleanup| <= limit; per-address "
              "counter = number of connections from that address incl. the new list <= per-IP limit) for every history incl. every "
              "failure exit of admission and failing accept4; capacity restored; at stop every socket closed exactly once and "
              "start/close notifications paired; response refcount = multiset of holders over EVERY acquisition/drop site (final "
@@ -87,30 +87,30 @@ CLAIMED = {
         design="DESIGN.md §3 C09", technique="Lean 4 proof (invariants + conservation laws over step/run) + scripted differential run + oracle"),
     "C10": dict(
         engine="tmo",
-        text="Lean 4 proof (52 theorems) over a model of the timeout logic (close decision / wait with uint64 wrap and the 5 s "
+        text="Lean 4 proof (57 theorems) over a model of the timeout logic (close decision / wait with uint64 wrap and the 5 s "
              "jump-back rule; normal, manual, suspended, cleanup, eready lists in pointer order; override, suspend/resume, "
              "new-connection processing, MHD_get_timeout64 and its wrappers, select and epoll rounds) for ARBITRARY clocks: the "
              "invariant incl. sortedness of the default-timeout list is unconditional; round soundness (closed => idle > T, never "
              "suspended), round completeness for epoll and select and hint <= earliest deadline + 100 ms hold for every history in "
              "which the clock is at most 5000 ms behind its high-water mark (the code's own tolerance; largeDisplacement witness "
-             "shows the hypothesis cannot be dropped); hint 0 when pending (data_already_pending modelled as the fold over the select traversal it is: raised for a PROCESS connection, never lowered by a later idle one); override immediate; resume restarts; conversions "
+             "shows the hypothesis cannot be dropped); hint 0 when pending (data_already_pending modelled as the fold over the select traversal it is: raised for a PROCESS connection, never lowered by a later idle one); override immediate; resume restarts; send progress is activity (regenerated activitySites table: every sending state restarts the timer after a partial send; send_progress_restarts_timer); conversions "
              "(MHD_get_timeout, _get_timeout64s, _get_timeout_i, get_timeout_millisec_(int), select / thread timevals) never wait "
              "longer than the hint for every uint64 value. Tie: line-by-line correspondence incl. white-box list dump under a "
              "virtual clock (bounded-exhaustive + random, select + epoll, a backward jump at every position of base histories), "
              "white-box conversion op, independent idle-time oracle.",
-        note="Single-threaded external polling only; activity = received bytes; the two inline timeval conversions are tied by "
+        note="Single-threaded external polling only; replies to slow readers in the select loop only; the two inline timeval conversions are tied by "
              "source pattern (LP64 only); behaviour flags probed from the real code each run (a regression of a repaired defect "
              "flips a flag and breaks `current_is_repaired`).",
         design="DESIGN.md §3 C10", technique="Lean 4 proof (invariant by induction over operations) + model/code correspondence + oracle"),
     "C11": dict(
         engine="susp",
-        text="Lean 4 proof (26 theorems, incl. a stand-alone timer model: resume restarts the inactivity timer in both timeout lists, no timeout while suspended, no early timeout after resume) over a model of internal_suspend_connection_ / MHD_resume_connection / "
+        text="Lean 4 proof (29 theorems, incl. a stand-alone timer model: resume restarts the inactivity timer in both timeout lists, no timeout while suspended, no early timeout after resume) over a model of internal_suspend_connection_ / MHD_resume_connection / "
              "resume_suspended_connections, the select/poll/epoll traversals and the connection state machine's `suspended` guards, "
              "for keep-alive PIPELINES of requests, every history, mode, readiness answer and application script: lists stay "
              "consistent; a suspended connection is in no traversed list, gets no handler / reader / recv / send and keeps its state "
              "incl. buffered pipelined data; the next resume pass re-enters at the same state; epoll_no_lost_wakeup (a resumed "
              "connection gets its turn in the next round without a new epoll event); both orders of the suspend/resume race "
-             "coincide; resume landing inside a traversal is not lost (partial: between non-traversal phases not proved); upload and "
+             "coincide; a resume request from another thread landing between any two atomic steps of a round (all three loops) is not lost (resume_any_point_of_round); timeout lists consistent under MHD_set_connection_option at any time incl. while suspended; upload and "
              "reply delivered losslessly over the whole pipeline; stutter equivalence. The guard table is regenerated each run "
              "(behavioural probes + source patterns). Tie: all placements of <= 2/3 suspend points x resume delays x select/epoll x "
              "1-2 connections x pipelined requests, exact callback-order diff and equal timeout-hint sequences, I/O-interposing "
@@ -153,7 +153,7 @@ CLAIMED = {
         design="DESIGN.md §3 C13", technique="Lean 4 proof (refinement to a set) + model/code correspondence + reference oracle"),
     "C14": dict(
         engine="auth",
-        text="Lean 4 proof (38 theorems) over a model of gen_auth.c / basicauth.c / the digestauth.c info API: parse(render) = "
+        text="Lean 4 proof (44 theorems) over a model of gen_auth.c / basicauth.c / the digestauth.c info API: parse(render) = "
              "meaning for every well-formed Digest parameter list in every rendering (order, case, OWS, token/quoted-string, "
              "escapes, extension parameters, empty elements); parse_agrees_reference: every byte string an RFC 7235/7616 "
              "recursive-descent reference (written from the ABNF, returns the parse tree) accepts is parsed to the same values; "
@@ -170,16 +170,16 @@ CLAIMED = {
         design="DESIGN.md §3 C14", technique="Lean 4 proof + regenerated constants + model/code correspondence + RFC reference oracle"),
     "C16": dict(
         engine="hash",
-        text="For MD5, SHA-1 (both copies), SHA-256 and SHA-512/256: machine-checked proof (21 theorems) that init -> any sequence "
+        text="For MD5, SHA-1 (both copies), SHA-256 and SHA-512/256: machine-checked proof (22 theorems) that init -> any sequence "
              "of update calls (any split, any alignment, any starting context) -> finish on the model returns the RFC 1321 / FIPS "
              "180-4 digest of the concatenated data, never leaves the context buffer, writes the full-width bit length "
              "(finish_length_encoding_*) and leaves a re-usable context. The step tables, round constants, shifts, IVs and sizes are "
              "re-extracted from the C source each run (instrumented execution of the real transform) and proved equal to the "
              "standards' tables by decide over the whole tables. That the model's unbounded `length` is a faithful abstraction is a "
              "checked fact: no_narrowing_in_control_flow over the clang-AST list of every 64-bit-to-narrower conversion in the ten "
-             "update/finish functions (each proved the identity on every value its operand can take). Tie: every length 0..300 "
+             "update/finish functions (each proved the identity on every value its operand can take); hash_functions_have_no_mutable_static_state (symbol-table scan of the five translation units). Tie: every length 0..300 "
              "one-shot/byte-by-byte, all 2-way splits <= 140, 16 misalignments under UBSan, white-box counter wrap-arounds, single "
-             "update calls of 2^31 / 2^32 + d bytes read from a zero mapping, hashlib triple comparison.",
+             "update calls of 2^31 / 2^32 + d bytes read from a zero mapping, 4/8-thread concurrent hashing, hashlib triple comparison.",
         note="Specifications and the model's step/sigma/rotate functions are hand-written (validated by published vectors and hashlib). "
              "That a misaligned pointer is never dereferenced as a word is established by the UBSan run, not by the theorems.",
         design="DESIGN.md §3 C16", technique="Lean 4 refinement proof + instrumented-execution extractor + triple differential (model, code, hashlib)"),
@@ -198,8 +198,8 @@ CLAIMED = {
         design="DESIGN.md §3 C17", technique="Lean 4 proof + correspondence + reference oracle"),
     "C18": dict(
         engine="locks",
-        text="PARTIAL by nature. Proved (24 theorems; decide +kernel over the whole clang-AST-regenerated lock table, lifted by "
-             "lemmas): lock-order graph acyclic => no wait cycle in an abstract thread/mutex model; no lock held while blocking; "
+        text="PARTIAL by nature. Proved (25 theorems; decide +kernel over the whole clang-AST-regenerated lock table, lifted by "
+             "lemmas): lock-order graph acyclic => no wait cycle in an abstract thread/mutex model; no lock held while blocking; every exit of every function releases every mutex it took, lock wrappers excepted (locks_released_on_every_path over the regenerated exitsHoldingLock); "
              "lockset discipline for shared fields except two flags (kernel-checked witness that the full statement is false: F18b); "
              "writes under mutex, with no exception at all for the per-IP tree and the nonce table (per_ip_and_nonce_under_mutex); "
              "callbacks unlocked; stop sequencing and stop state machines (termination, every connection notified once; "
@@ -216,13 +216,13 @@ CLAIMED = {
         design="DESIGN.md §3 C18", technique="Lean 4 decide +kernel over a clang-AST-extracted table + abstract thread model + TSan stress with watchdog"),
     "C19": dict(
         engine="ws",
-        text="Lean 4 proof (29 theorems) over a model of mhd_websocket.c (decoder state machine byte for byte, incremental UTF-8 "
+        text="Lean 4 proof (31 theorems) over a model of mhd_websocket.c (decoder state machine byte for byte, incremental UTF-8 "
              "checker, the real encoders): split independence of whole sessions for all states and chunk lists; no out-of-buffer "
              "access or non-termination for all states and inputs; each RFC 6455 violation class yields the prescribed status and an "
              "invalid stream; round trip through the modelled real encoders for single frames (roundtrip_data / _pingpong / _close / "
              "_close_noreason) and for FRAGMENTED messages in both decoder modes with interleaved ping/pong frames and fragment "
              "boundaries inside UTF-8 characters (roundtrip_fragmented_assembled, roundtrip_fragmented_fragments, fragments_binary, "
-             "fragments_lossless), for every payload size, key, role and split. A close frame between fragments is not a round trip "
+             "fragments_lossless), for every payload size, key, role and split; encoder calls between decode calls change nothing the decoder reads (encode_preserves_decoder_state, decode_interleaved_with_encode_independent). A close frame between fragments is not a round trip "
              "(=> bad_frame_sequence). Tie: regenerated enums, exhaustive header-pair (65 536) and UTF-8 comparison, structured "
              "random streams x splits, fragmented messages through the real encoders x 2 modes x splits (1168 messages / 13.9k "
              "scripts per quick run), independent RFC 6455 reference.",
@@ -230,7 +230,7 @@ CLAIMED = {
         design="DESIGN.md §3 C19", technique="Lean 4 proof + model/code correspondence + RFC 6455 reference oracle"),
     "C20": dict(
         engine="upg",
-        text="Lean 4 proofs (39 theorems) over a model of the upgrade path (queue_response preconditions, execute_upgrade, "
+        text="Lean 4 proofs (40 theorems) over a model of the upgrade path (queue_response preconditions, execute_upgrade, "
              "mark_app_closed, resume/cleanup, stop) for every split of 'request head + following bytes', close timing and mode: "
              "lossless_handover (every byte beyond the head reaches the upgrade handler exactly once and in order), wire_is_head101 "
              "where the 101 head is C04's reply builder applied to the application's response object "
@@ -248,7 +248,7 @@ CLAIMED = {
         design="DESIGN.md §3 C20", technique="Lean 4 proof + model/code correspondence (per-fd I/O interposition) + log oracle"),
     "C04": dict(
         engine="reply",
-        text="Lean 4 proof (12 theorems): calls_preserve_inv (induction over every legal sequence of add/del header/footer calls "
+        text="Lean 4 proof (13 theorems): calls_preserve_inv (induction over every legal sequence of add/del header/footer calls "
              "from any constructor), reply_wellFramed against a strict HTTP/1.x response grammar, one_body_delimitation (incl. "
              "trailers only on chunked replies with a body), no_body_when_forbidden, user_headers_verbatim (headers and footers: "
              "once, in insertion order), close_announced_iff (a `close` token in a Connection field of the wire head <=> the daemon "
@@ -266,7 +266,7 @@ CLAIMED = {
         design="DESIGN.md §3 C04", technique="Lean 4 proof + regenerated constants + exhaustive/bounded/random differential + strict-parser oracle"),
     "C05": dict(
         engine="sm",
-        text="Lean 4 proof (19 theorems) over a model of the request state machine at MHD_CONNECTION_STATE granularity incl. interim "
+        text="Lean 4 proof (23 theorems) over a model of the request state machine at MHD_CONNECTION_STATE granularity incl. interim "
              "(102) replies and upgrade responses (MHD_response_execute_upgrade_, upgradeDone, execution failure): protocol_accepts "
              "/ protocol_complete (every event list incl. timeouts, pool exhaustion, allocation and epoll_ctl failures, stop, "
              "resume, upgrade; every application) against the call-protocol automaton; aware_iff_open_request; closed_only_unaware; "
@@ -274,7 +274,7 @@ CLAIMED = {
              "suffices: the theorems are about the unbounded while loops); upload_accounting / upload_complete_length / "
              "early_response_discards_upload (every body byte presented exactly once and in order, only the declined suffix "
              "re-presented; at the final call the summed offset equals Content-Length; an early-accepted response discards the "
-             "upload); regenerated repair flags with kernel-checked witnesses of F9/F9b/F9c/F14. Tie: placement grid 12 request "
+             "upload); start_close_paired / refused_silent (connection notifications paired and bracketing; refused connections get none); tpc_shutdown_is_shutdownClose; regenerated repair flags with kernel-checked witnesses of F9/F9b/F9c/F14. Tie: placement grid 12 request "
              "shapes x phase boundaries x 8 actions x 28 handler behaviours (19.6k cases quick) + interim/upgrade scripts + "
              "interim-with-pipelined-bytes scripts + random histories on the real daemon (select + epoll): exact callback sequence "
              "and white-box state / client_aware at every settled point vs the model; independent automaton oracle.",
@@ -283,7 +283,7 @@ CLAIMED = {
         design="DESIGN.md §3 C05", technique="Lean 4 refinement proof + predictive correspondence + independent automaton oracle"),
     "C06": dict(
         engine="loop",
-        text="Lean 4 proof (45 theorems): round post-conditions for the select / poll / epoll loops, invariant over histories, "
+        text="Lean 4 proof (61 theorems): round post-conditions for the select / poll / epoll loops, invariant over histories, "
              "no_lost_wakeup(_epoll), progress (the per-connection step is a parameter constrained by laws that are monitored on "
              "every logged call); thread-per-connection loop (thread_main_handle_connection): tpc_invariant_reachable, "
              "tpc_no_lost_wakeup (at every blocking call: suspended => waits on the ITC for <= 250 ms; active => waits on the socket "
@@ -300,7 +300,7 @@ CLAIMED = {
         design="DESIGN.md §3 C06", technique="Lean 4 proof + regenerated flags + trace-driven model correspondence + log oracle"),
     "C07": dict(
         engine="send",
-        text="Lean 4 proof (24 theorems) over a model of the write path (header / body / chunk / footer phases, combined header+body "
+        text="Lean 4 proof (33 theorems) over a model of the write path (header / body / chunk / footer phases, combined header+body "
              "send, iovec with partial elements, sendfile with offset and fallback, pipe, callback readers incl. END_WITH_ERROR) and "
              "the upload path: delivered_prefix and session_prefix (all bytes the socket accepted over a keep-alive session are a "
              "prefix of the concatenated reply streams, no duplication or gap, for every fault script), done_delivers_all, "
@@ -312,12 +312,12 @@ CLAIMED = {
              "exchanges on the real daemon (interposed send/sendmsg/sendfile/recv, --wrap malloc/calloc with the failing site "
              "symbolised), completion count and code per reply and response refcount = 1 after release compared with the model, "
              "complete single-fault enumeration in the thorough tier.",
-        note="Premature END_OF_STREAM on a known-size body not modelled; pool destroy/reset and cleanup counters proved in the "
+        note="Pool destroy/reset and cleanup counters proved in the "
              "model, tied only via sanitizers; chunked uploads are C03's.",
         design="DESIGN.md §3 C07", technique="Lean 4 proof (invariant over fault scripts + progress measure) + fault enumeration as validation"),
     "C15": dict(
         engine="pp",
-        text="Lean 4 proof (9 theorems): urlencoded: url_roundtrip(_tokens), url_every_call_accepts, url_split_independent, "
+        text="Lean 4 proof (11 theorems): urlencoded: url_roundtrip(_tokens), url_every_call_accepts, url_split_independent, "
              "url_no_fault for every field list, every split and every buffer size >= 256; multipart: multipart_all_inputs (all "
              "inputs and splits: no fault, loop termination, every delivered byte is a byte of the input), multipart_roundtrip and "
              "multipart_nested_roundtrip (form fields and nested multipart/mixed containers, header lines in any spelling the line "
